@@ -42,7 +42,16 @@ def main(tier, seed):
     vals += [rng.randrange(-2**31, 2**31) for _ in range(200 if tier == "quick" else 5000)]
 
     def extra_jobs(cx, exe, opts, extra, name):
-        return [(w_setup, (exe, vals))]
+        jobs = [(w_setup, (exe, vals))]
+        # a second pass with allow_tld = 0 and allow_tld = only-special: every classified address is then rejected and must carry
+        # the code/message of its own class
+        mdl2 = _model.Model()
+        addrs = [a for a in AG.address_corpus(tier, seed, mdl2) if b"@" in a and a[a.rfind(b"@") + 1:a.rfind(b"@") + 2] != b"["]
+        sub = addrs[seed % 3::3]
+        for mask in (0, mdl2.class_bit("SPECIAL")):
+            for i in range(0, len(sub), 1500):
+                jobs.append((AG.w_addr, (exe, sub[i:i + 1500], [PROP], opts, extra, 1 | 4 | 8, mask, "allow=0x%x" % mask)))
+        return jobs
 
     # default allow_tld of eav_init so that the TLD_<class> codes of the disabled classes appear
     mdl = _model.Model()
